@@ -1,11 +1,12 @@
 """A scenario = files + commands + assertions.  It is plain JSON, so a saved scenario is a
 replay that needs no generator and no model: `execute` re-creates the files, runs the commands
 on the current build and re-evaluates the stored assertions."""
-import os, shutil, json, hashlib
+import os, shutil, json, hashlib, math, re
 from . import execu
 
 DEFAULT_CWD = "p/q/r"
 ASSERT_KINDS = {}
+_FLOAT_RE = re.compile(r"^-?([0-9]+(\.[0-9]+)?|inf|NaN)$")
 
 
 def assert_kind(name):
@@ -68,6 +69,23 @@ def _clip(s, n=300):
     return s if len(s) <= n else s[:n] + "...[%d more]" % (len(s) - n)
 
 
+def _line_eq(x, y):
+    if x == y:
+        return True
+    if x.startswith("float:") and y.startswith("float:"):
+        tx, ty = x[6:], y[6:]
+        if not _FLOAT_RE.match(ty):
+            return False
+        try:
+            fx, fy = float(tx), float(ty)
+        except ValueError:
+            return False
+        if fx != fx or fy != fy:
+            return tx == ty
+        return fx == fy and math.copysign(1, fx) == math.copysign(1, fy)
+    return False
+
+
 @assert_kind("exit")
 def _a_exit(a, res, ctx):
     r = res[a["step"]]
@@ -78,6 +96,12 @@ def _a_exit(a, res, ctx):
 @assert_kind("stdout_eq")
 def _a_stdout_eq(a, res, ctx):
     r = res[a["step"]]
+    if a.get("float_by_value") and r.stdout != a["value"]:
+        # Rust and Python break ties between equally short round-trip digit strings differently, so
+        # `float:` lines are compared by the double they denote (sign of zero and NaN included).
+        exp, got = a["value"].split("\n"), r.stdout.split("\n")
+        if len(exp) == len(got) and all(_line_eq(x, y) for x, y in zip(exp, got)):
+            return None
     if r.stdout != a["value"]:
         exp, got = a["value"].split("\n"), r.stdout.split("\n")
         i = 0
@@ -122,3 +146,14 @@ def _a_same(a, res, ctx):
     if out:
         out.append("stderr %s=%r %s=%r" % (a["a"], _clip(ra.stderr, 200), a["b"], _clip(rb.stderr, 200)))
     return out or None
+
+
+@assert_kind("any_of")
+def _a_any_of(a, res, ctx):
+    msgs = []
+    for opt in a["options"]:
+        fs = [f for f in (ASSERT_KINDS[x["kind"]](x, res, ctx) for x in opt) if f]
+        if not fs:
+            return None
+        msgs.append("; ".join(f if isinstance(f, str) else "; ".join(f) for f in fs))
+    return "none of the allowed outcomes: " + " | ".join(msgs)
